@@ -13,9 +13,9 @@ Iso8601/Ext.vos Iso8601/Ext.vok Iso8601/Ext.required_vos: Iso8601/Ext.v Base/GoI
 Generated/Iso8601Gen.vo Generated/Iso8601Gen.glob Generated/Iso8601Gen.v.beautified Generated/Iso8601Gen.required_vo: Generated/Iso8601Gen.v Base/GoInt.vo Iso8601/Ext.vo
 Generated/Iso8601Gen.vio: Generated/Iso8601Gen.v Base/GoInt.vio Iso8601/Ext.vio
 Generated/Iso8601Gen.vos Generated/Iso8601Gen.vok Generated/Iso8601Gen.required_vos: Generated/Iso8601Gen.v Base/GoInt.vos Iso8601/Ext.vos
-Extract/Extract.vo Extract/Extract.glob Extract/Extract.v.beautified Extract/Extract.required_vo: Extract/Extract.v Base/GoInt.vo Iso8601/Ext.vo Generated/Iso8601Gen.vo Iso8601/Spec.vo Generated/AsmAsciiGen.vo Ascii/AsmTotal.vo Generated/AsciiGen.vo Ascii/Spec.vo Proto/Ext.vo Generated/ProtoGen.vo Proto/Model.vo Proto/PrimSpec.vo Proto/Spec.vo
-Extract/Extract.vio: Extract/Extract.v Base/GoInt.vio Iso8601/Ext.vio Generated/Iso8601Gen.vio Iso8601/Spec.vio Generated/AsmAsciiGen.vio Ascii/AsmTotal.vio Generated/AsciiGen.vio Ascii/Spec.vio Proto/Ext.vio Generated/ProtoGen.vio Proto/Model.vio Proto/PrimSpec.vio Proto/Spec.vio
-Extract/Extract.vos Extract/Extract.vok Extract/Extract.required_vos: Extract/Extract.v Base/GoInt.vos Iso8601/Ext.vos Generated/Iso8601Gen.vos Iso8601/Spec.vos Generated/AsmAsciiGen.vos Ascii/AsmTotal.vos Generated/AsciiGen.vos Ascii/Spec.vos Proto/Ext.vos Generated/ProtoGen.vos Proto/Model.vos Proto/PrimSpec.vos Proto/Spec.vos
+Extract/Extract.vo Extract/Extract.glob Extract/Extract.v.beautified Extract/Extract.required_vo: Extract/Extract.v Base/GoInt.vo Iso8601/Ext.vo Generated/Iso8601Gen.vo Iso8601/Spec.vo Generated/AsmAsciiGen.vo Ascii/AsmTotal.vo Generated/AsciiGen.vo Ascii/Spec.vo Proto/Ext.vo Generated/ProtoGen.vo Proto/Model.vo Proto/PrimSpec.vo Proto/Spec.vo Json/Ext.vo Generated/JsonParseGen.vo Json/Grammar.vo Json/Spec.vo
+Extract/Extract.vio: Extract/Extract.v Base/GoInt.vio Iso8601/Ext.vio Generated/Iso8601Gen.vio Iso8601/Spec.vio Generated/AsmAsciiGen.vio Ascii/AsmTotal.vio Generated/AsciiGen.vio Ascii/Spec.vio Proto/Ext.vio Generated/ProtoGen.vio Proto/Model.vio Proto/PrimSpec.vio Proto/Spec.vio Json/Ext.vio Generated/JsonParseGen.vio Json/Grammar.vio Json/Spec.vio
+Extract/Extract.vos Extract/Extract.vok Extract/Extract.required_vos: Extract/Extract.v Base/GoInt.vos Iso8601/Ext.vos Generated/Iso8601Gen.vos Iso8601/Spec.vos Generated/AsmAsciiGen.vos Ascii/AsmTotal.vos Generated/AsciiGen.vos Ascii/Spec.vos Proto/Ext.vos Generated/ProtoGen.vos Proto/Model.vos Proto/PrimSpec.vos Proto/Spec.vos Json/Ext.vos Generated/JsonParseGen.vos Json/Grammar.vos Json/Spec.vos
 Iso8601/Spec.vo Iso8601/Spec.glob Iso8601/Spec.v.beautified Iso8601/Spec.required_vo: Iso8601/Spec.v Base/GoInt.vo Iso8601/Ext.vo Generated/Iso8601Gen.vo
 Iso8601/Spec.vio: Iso8601/Spec.v Base/GoInt.vio Iso8601/Ext.vio Generated/Iso8601Gen.vio
 Iso8601/Spec.vos Iso8601/Spec.vok Iso8601/Spec.required_vos: Iso8601/Spec.v Base/GoInt.vos Iso8601/Ext.vos Generated/Iso8601Gen.vos
@@ -58,9 +58,36 @@ Proto/PrimProofs.vos Proto/PrimProofs.vok Proto/PrimProofs.required_vos: Proto/P
 Proto/Spec.vo Proto/Spec.glob Proto/Spec.v.beautified Proto/Spec.required_vo: Proto/Spec.v Base/GoInt.vo Proto/Ext.vo Generated/ProtoGen.vo Proto/Model.vo Proto/PrimSpec.vo
 Proto/Spec.vio: Proto/Spec.v Base/GoInt.vio Proto/Ext.vio Generated/ProtoGen.vio Proto/Model.vio Proto/PrimSpec.vio
 Proto/Spec.vos Proto/Spec.vok Proto/Spec.required_vos: Proto/Spec.v Base/GoInt.vos Proto/Ext.vos Generated/ProtoGen.vos Proto/Model.vos Proto/PrimSpec.vos
+Proto/DecProofs.vo Proto/DecProofs.glob Proto/DecProofs.v.beautified Proto/DecProofs.required_vo: Proto/DecProofs.v Base/GoInt.vo Proto/Ext.vo Generated/ProtoGen.vo Proto/Model.vo Proto/PrimSpec.vo Proto/PrimProofs.vo Proto/Spec.vo
+Proto/DecProofs.vio: Proto/DecProofs.v Base/GoInt.vio Proto/Ext.vio Generated/ProtoGen.vio Proto/Model.vio Proto/PrimSpec.vio Proto/PrimProofs.vio Proto/Spec.vio
+Proto/DecProofs.vos Proto/DecProofs.vok Proto/DecProofs.required_vos: Proto/DecProofs.v Base/GoInt.vos Proto/Ext.vos Generated/ProtoGen.vos Proto/Model.vos Proto/PrimSpec.vos Proto/PrimProofs.vos Proto/Spec.vos
+Proto/RoundTrip.vo Proto/RoundTrip.glob Proto/RoundTrip.v.beautified Proto/RoundTrip.required_vo: Proto/RoundTrip.v Base/GoInt.vo Proto/Ext.vo Generated/ProtoGen.vo Proto/Model.vo Proto/PrimSpec.vo Proto/PrimProofs.vo Proto/Spec.vo
+Proto/RoundTrip.vio: Proto/RoundTrip.v Base/GoInt.vio Proto/Ext.vio Generated/ProtoGen.vio Proto/Model.vio Proto/PrimSpec.vio Proto/PrimProofs.vio Proto/Spec.vio
+Proto/RoundTrip.vos Proto/RoundTrip.vok Proto/RoundTrip.required_vos: Proto/RoundTrip.v Base/GoInt.vos Proto/Ext.vos Generated/ProtoGen.vos Proto/Model.vos Proto/PrimSpec.vos Proto/PrimProofs.vos Proto/Spec.vos
+Proto/EncProofs.vo Proto/EncProofs.glob Proto/EncProofs.v.beautified Proto/EncProofs.required_vo: Proto/EncProofs.v Base/GoInt.vo Proto/Ext.vo Generated/ProtoGen.vo Proto/Model.vo Proto/PrimSpec.vo Proto/PrimProofs.vo Proto/Spec.vo
+Proto/EncProofs.vio: Proto/EncProofs.v Base/GoInt.vio Proto/Ext.vio Generated/ProtoGen.vio Proto/Model.vio Proto/PrimSpec.vio Proto/PrimProofs.vio Proto/Spec.vio
+Proto/EncProofs.vos Proto/EncProofs.vok Proto/EncProofs.required_vos: Proto/EncProofs.v Base/GoInt.vos Proto/Ext.vos Generated/ProtoGen.vos Proto/Model.vos Proto/PrimSpec.vos Proto/PrimProofs.vos Proto/Spec.vos
 Proto/PrimSpec.vo Proto/PrimSpec.glob Proto/PrimSpec.v.beautified Proto/PrimSpec.required_vo: Proto/PrimSpec.v Base/GoInt.vo Proto/Ext.vo Generated/ProtoGen.vo
 Proto/PrimSpec.vio: Proto/PrimSpec.v Base/GoInt.vio Proto/Ext.vio Generated/ProtoGen.vio
 Proto/PrimSpec.vos Proto/PrimSpec.vok Proto/PrimSpec.required_vos: Proto/PrimSpec.v Base/GoInt.vos Proto/Ext.vos Generated/ProtoGen.vos
 Properties/C03.vo Properties/C03.glob Properties/C03.v.beautified Properties/C03.required_vo: Properties/C03.v Base/GoInt.vo Proto/Ext.vo Generated/ProtoGen.vo Proto/Model.vo
 Properties/C03.vio: Properties/C03.v Base/GoInt.vio Proto/Ext.vio Generated/ProtoGen.vio Proto/Model.vio
 Properties/C03.vos Properties/C03.vok Properties/C03.required_vos: Properties/C03.v Base/GoInt.vos Proto/Ext.vos Generated/ProtoGen.vos Proto/Model.vos
+Json/Ext.vo Json/Ext.glob Json/Ext.v.beautified Json/Ext.required_vo: Json/Ext.v Base/GoInt.vo Base/Lanes.vo
+Json/Ext.vio: Json/Ext.v Base/GoInt.vio Base/Lanes.vio
+Json/Ext.vos Json/Ext.vok Json/Ext.required_vos: Json/Ext.v Base/GoInt.vos Base/Lanes.vos
+Generated/JsonParseGen.vo Generated/JsonParseGen.glob Generated/JsonParseGen.v.beautified Generated/JsonParseGen.required_vo: Generated/JsonParseGen.v Base/GoInt.vo Generated/AsmAsciiGen.vo Ascii/AsmTotal.vo Generated/AsciiGen.vo Json/Ext.vo
+Generated/JsonParseGen.vio: Generated/JsonParseGen.v Base/GoInt.vio Generated/AsmAsciiGen.vio Ascii/AsmTotal.vio Generated/AsciiGen.vio Json/Ext.vio
+Generated/JsonParseGen.vos Generated/JsonParseGen.vok Generated/JsonParseGen.required_vos: Generated/JsonParseGen.v Base/GoInt.vos Generated/AsmAsciiGen.vos Ascii/AsmTotal.vos Generated/AsciiGen.vos Json/Ext.vos
+Json/Grammar.vo Json/Grammar.glob Json/Grammar.v.beautified Json/Grammar.required_vo: Json/Grammar.v Base/GoInt.vo
+Json/Grammar.vio: Json/Grammar.v Base/GoInt.vio
+Json/Grammar.vos Json/Grammar.vok Json/Grammar.required_vos: Json/Grammar.v Base/GoInt.vos
+Json/Spec.vo Json/Spec.glob Json/Spec.v.beautified Json/Spec.required_vo: Json/Spec.v Base/GoInt.vo Generated/AsmAsciiGen.vo Ascii/AsmTotal.vo Generated/AsciiGen.vo Json/Ext.vo Generated/JsonParseGen.vo Json/Grammar.vo
+Json/Spec.vio: Json/Spec.v Base/GoInt.vio Generated/AsmAsciiGen.vio Ascii/AsmTotal.vio Generated/AsciiGen.vio Json/Ext.vio Generated/JsonParseGen.vio Json/Grammar.vio
+Json/Spec.vos Json/Spec.vok Json/Spec.required_vos: Json/Spec.v Base/GoInt.vos Generated/AsmAsciiGen.vos Ascii/AsmTotal.vos Generated/AsciiGen.vos Json/Ext.vos Generated/JsonParseGen.vos Json/Grammar.vos
+Json/ValidProofs.vo Json/ValidProofs.glob Json/ValidProofs.v.beautified Json/ValidProofs.required_vo: Json/ValidProofs.v Base/GoInt.vo Base/Lanes.vo Base/LanesProofs.vo Generated/AsmAsciiGen.vo Ascii/AsmTotal.vo Generated/AsciiGen.vo Ascii/Spec.vo Ascii/Proofs.vo Json/Ext.vo Generated/JsonParseGen.vo Json/Grammar.vo Json/Spec.vo
+Json/ValidProofs.vio: Json/ValidProofs.v Base/GoInt.vio Base/Lanes.vio Base/LanesProofs.vio Generated/AsmAsciiGen.vio Ascii/AsmTotal.vio Generated/AsciiGen.vio Ascii/Spec.vio Ascii/Proofs.vio Json/Ext.vio Generated/JsonParseGen.vio Json/Grammar.vio Json/Spec.vio
+Json/ValidProofs.vos Json/ValidProofs.vok Json/ValidProofs.required_vos: Json/ValidProofs.v Base/GoInt.vos Base/Lanes.vos Base/LanesProofs.vos Generated/AsmAsciiGen.vos Ascii/AsmTotal.vos Generated/AsciiGen.vos Ascii/Spec.vos Ascii/Proofs.vos Json/Ext.vos Generated/JsonParseGen.vos Json/Grammar.vos Json/Spec.vos
+Properties/C05.vo Properties/C05.glob Properties/C05.v.beautified Properties/C05.required_vo: Properties/C05.v Base/GoInt.vo Json/Ext.vo Generated/JsonParseGen.vo Json/Grammar.vo Json/Spec.vo
+Properties/C05.vio: Properties/C05.v Base/GoInt.vio Json/Ext.vio Generated/JsonParseGen.vio Json/Grammar.vio Json/Spec.vio
+Properties/C05.vos Properties/C05.vok Properties/C05.required_vos: Properties/C05.v Base/GoInt.vos Json/Ext.vos Generated/JsonParseGen.vos Json/Grammar.vos Json/Spec.vos
